@@ -91,3 +91,77 @@ def c02(c):
     c.partial = ["Butcher's theorem (tree conditions ⇔ local error O(h^{p+1}) for every smooth f) is cited, not formalised",
                  "Radau IIA order/Padé statements are not yet modelled (Radau's order is only observed by the monitor)",
                  "accepted-step count ~ tol^(-1/q): the controller exponent is checked in C01; the asymptotic count is not a theorem"]
+
+
+# ---------------------------------------------------------------------------------------------- C06
+C06_THEOREMS = [
+    "rk4_interp_left", "rk4_interp_right", "rk4_dense_ends", "rk23_interp_left", "rk23_interp_right",
+    "dopri5_interp_left", "dopri5_interp_right", "dop853_interp_left", "dop853_interp_right", "C06_dopri5_endpoints",
+]
+
+
+def generic_monitor(c, name, args, kind, timeout=1800, describe=None):
+    """run a harness monitor that prints one JSON line per case with `ok` and `why`"""
+    rc, out, dt = c.harness(args, timeout=timeout)
+    rows = [r for r in jlines(out) if r.get("kind") == kind]
+    bad = [r for r in rows if r.get("ok") is False]
+    mon = {"cases": len(rows), "distinct": len({json.dumps({k: v for k, v in r.items() if k not in ("ok", "why")}, sort_keys=True) for r in rows}),
+           "s": round(dt, 2), "failures": len(bad), "args": [str(a) for a in args]}
+    hist = {}
+    for r in rows:
+        for key in ("method", "problem", "status", "branch", "op"):
+            if key in r:
+                hist.setdefault(key, {}).setdefault(str(r[key]), 0)
+                hist[key][str(r[key])] += 1
+    mon["distribution"] = hist
+    if rc != 0 and not rows:
+        mon["error"] = out[-500:]
+        c.violation("harness-error", "%s: harness exited %d" % (name, rc), {"output": out[-800:]}, False)
+    c.monitors[name] = mon
+    c.cov["samples"] += rows[:2]
+    seen = set()
+    for r in bad:
+        key = r.get("finding_key") or "%s-%s" % (name, r.get("method", ""))
+        if key in seen:
+            continue
+        seen.add(key)
+        rep = dict(r)
+        rep["finding_key"] = key
+        rep["rerun"] = "harness/target/release/ivp-verif-harness " + " ".join(str(a) for a in args)
+        c.violation("implementation-vs-oracle", "%s: %s" % (name, r.get("why", "")), rep, True)
+    return rows
+
+
+def c06(c):
+    common_proof(c, "IvpModel.Props.C06", C06_THEOREMS)
+    if c.build_harness():
+        n = 120 if c.tier == "quick" else 1500
+        generic_monitor(c, "dense_check", ["dense-check", c.seed, n], "dense")
+    c.cov["samples"] += [
+        {"theorem": "dopri5_interp_right", "statement": "interpolate (xold+h) xold h (dense y1 y h k1 k2).cont0..3 c4 = y1 ∧ (dense …).cont0 = y, for all n, vectors, xold, h ≠ 0"},
+        {"theorem": "rk23_interp_right", "statement": "interpolate (xold+h) … (dense y Ka Kb Kc Kd) = stages_loop3 y h Ka Kb Kc  (the accepted state the stage code computed)"},
+    ]
+    c.partial = ["Radau and BDF interpolants, BDF change_d, and the segment lookup of ContinuousOutput/Solution::sol are covered by the "
+                 "dense_check monitor on the implementation (all six methods), not yet by theorems",
+                 "binary64 rounding at the ends ('to rounding'): theorems are exact-arithmetic"]
+
+
+# ---------------------------------------------------------------------------------------------- C07
+C07_THEOREMS = [
+    "rk4_dense_order3", "rk23_dense_order3", "dopri5_dense_order4", "dop853_dense_order7",
+    "rk4_dense_not_order4", "rk23_dense_not_order4", "dopri5_dense_not_order5", "dop853_dense_not_order8",
+    "rk4_dense_weights", "rk23_dense_weights", "dopri5_dense_weights", "dop853_dense_weights", "dop853_extra_stage_eqs",
+    "BTree.forall_of_all",
+]
+
+
+def c07(c):
+    common_proof(c, "IvpModel.Props.C07", C07_THEOREMS)
+    if c.build_harness():
+        order_monitor(c, want_dense=True)
+    c.cov["samples"] += [
+        {"theorem": "dopri5_dense_order4", "statement": "∀ t : BTree, t.order ≤ 4 → dopri5Dense.condTree t = true   (Σ_i w_i(θ)Φ_i(t) = θ^|t|/γ(t) coefficientwise)"},
+        {"theorem": "dop853_dense_weights", "statement": "interpolate (xold+θh) xold h (dense1/dense2 blocks) = denseVal dop853Dense 16 h θ y (K1,K6..K16), all n, h ≠ 0, θ"},
+    ]
+    c.partial = ["continuous Butcher theorem (conditions ⇒ uniform O(h^{q+1}) error) is cited, not formalised",
+                 "Radau (collocation polynomial) and BDF interpolant accuracy: only observed by the order monitor (Radau) / dense_check"]
